@@ -169,12 +169,17 @@ def recompute_route(h, r, cfg, x, calls, prev_row):
     else:
         return None
     xq = refx.lift_dict(x)
+    # a float model sums terms that may cancel (1 + 2a + 14 + 1 - 14a with a = fl(4/3) is 0 exactly, 16 eps in floats): its rounding
+    # error is relative to the size of the TERMS (times the output scale), not to the size of the result
+    sc = cfg['model'].get('out_scale')
+    fac = abs(float(sc[0])) * 10.0 ** sc[1] if sc else 1.0
+    slack = 0.0 if cfg['mode'] == 'exact' else 64 * refx.EPS * getattr(h.model, 'term_scale', 0.0) * fac
     for subset, _typ, n_samples, preds, _x in calls:
         sub = [refx.norm_key(s) for s in subset]
         want = r.model.pure({**xq, **{f: bg[f] for f in sub}})
         for p in preds:
             pq = refx.lift_dict(p)
-            if set(pq) != set(want) or any(abs(float(pq[l] - want[l])) > 1e-9 * (1 + abs(float(want[l]))) for l in want):
+            if set(pq) != set(want) or any(abs(float(pq[l] - want[l])) > 1e-9 * (1 + abs(float(want[l]))) + slack for l in want):
                 return 'recomputed-prediction', (f'imputed prediction {p!r} for subset {sub!r} differs from the model on x with those '
                                                  f'features replaced by the background {want!r}')
     return None
